@@ -28,7 +28,7 @@ echo "== demo WITH the change"; timeout 3000 bash -c "$cmd" > $log.demo1 2>&1; r
 for f in $demos; do rm -f $d/$f; done
 echo "== pinned suite WITH the change (go test ./... ; judged per test against BASELINE stable_pass)"
 go build ./... || { echo "BUILD FAILS"; exit 2; }
-go test -json -vet=off -count=1 -timeout 25m ./... > $log.suite.json 2>$log.suite.err
+go test -json -vet=off -count=1 -timeout 90m ./... > $log.suite.json 2>$log.suite.err
 python3 - $log.suite.json <<'P'
 import json,sys
 b=json.load(open('/root/.vp/BASELINE.json'))
